@@ -108,6 +108,7 @@ def run(ctx):
     fixedbuf_rule(ctx)
     take_rule(ctx)
     header_rule(ctx)
+    shortread_rule(ctx)
 
 
 def consume_rule(ctx):
@@ -484,3 +485,38 @@ def header_rule(ctx):
         if cname(t).endswith('from_datum_reader'):
             same_reader = origin(rb, t['args'][0]).params() == {1}
     ctx.ob('HEADER', 'reader', ok and same_reader, short_loc(rb.span), 'header = read_exact(&mut [0u8; 10]) (%s), error propagated; datum decoded from the same reader: %s' % (size, same_reader))
+
+
+SINGLE_READ_REVIEWED = {
+    # function label -> reason a single io::Read::read whose count is looked at is right there
+    'object_container_file_encoding::reader::decompression::DecompressionState::into_source_reader_and_config':
+        'the 1-byte probe that drives a streaming decoder to its end: 0 is the only accepted count (C05 drive-to-end)',
+}
+
+
+def shortread_rule(ctx):
+    """A plain `io::Read::read` may return fewer bytes than asked for whenever the source refills (a chunked reader, a
+    small BufReader): input that is read with it and judged by the returned count makes the streamed path disagree with
+    the slice path.  Outside `io::Read` implementations that merely forward the call (their own caller loops), every
+    fixed-size read of the decode / header paths goes through read_exact or the crate's own primitives."""
+    f = ctx.f
+    n = 0
+    bad = []
+    for b in f.body_list:
+        fl = fn_label(b)
+        scope = fl.startswith(('de::', '<de::', 'single_object_encoding::', '<single_object_encoding::',
+                               'object_container_file_encoding::reader::', '<object_container_file_encoding::reader::'))
+        if not scope:
+            continue
+        for bb, t in b.calls():
+            if b.is_cleanup(bb) or (t.get('callee') or '') != 'std::io::Read::read':
+                continue
+            n += 1
+            owner = fl.split('::{closure#')[0]
+            if owner.startswith('<') and owner.endswith((' as std::io::Read>::read', ' as std::io::Read>::read_vectored', ' as std::io::Read>::read_buf')):
+                continue      # a Read implementation handing its own caller the count
+            if owner in SINGLE_READ_REVIEWED:
+                continue
+            bad.append('%s at %s' % (short_fn(fl), short_loc(t.get('span'))))
+    ctx.ob('SHORTREAD', 'no-single-read-judged-by-count', not bad and n >= 1, None,
+           'plain io::Read::read calls outside forwarding Read implementations: %s (%d call(s) seen; a short count at a refill boundary is not the end of input)' % (bad or 'none', n))
